@@ -5,7 +5,7 @@
     (`vm_compute`), which re-establishes every theorem below for what the code says now. *)
 From Coq Require Import ZArith List Bool Lia.
 Import ListNotations.
-From CV Require Import Model.M_flow Model.M_pipeline Model.M_aflow Proof.P_aflow Proof.P_cnt Proof.P_endreq Proof.P_endreq2 Proof.P_flow_thm.
+From CV Require Import Model.M_flow Model.M_pipeline Model.M_aflow Proof.P_aflow Proof.P_cnt Proof.P_endreq Proof.P_endreq2 Proof.P_served Proof.P_flow_thm.
 Open Scope Z_scope.
 
 Definition all_fnames : list fname :=
@@ -62,6 +62,11 @@ Proof.
   rewrite forallb_forall in HP. apply HP. now apply Hin.
 Qed.
 
+(** every served request has been closed: the serving slot holds no unclosed request at the end of a session and
+    none was ever dropped from it unclosed (identity bits of the abstract state) *)
+Definition served_closed (r : outcome * astate) : bool :=
+  let '(op, _, lost) := snd (snd r) in negb op && negb lost.
+
 Section Gen.
   Variable prog : fname -> stmt.
   Variable pparam : fname -> stmt.
@@ -78,8 +83,8 @@ Section Gen.
     end.
 
   Definition flow_checks : bool :=
-    session_check false (fun r => ok_outcome (fst r) && one_response r && unexpected_5xx r && no_leak r)
-    && session_check true (fun r => ok_outcome (fst r) && one_response r && unexpected_5xx r)
+    session_check false (fun r => ok_outcome (fst r) && one_response r && unexpected_5xx r && served_closed r && no_leak r)
+    && session_check true (fun r => ok_outcome (fst r) && one_response r && unexpected_5xx r && served_closed r)
     && bounds_eqb (cnt prog pparam 20 (RunHooks OnEndResource) Skip (Call F_respond)) (Some (1, 1)%nat)
     && tables_eqb (g_hook_table F_request_run) table_run
     && tables_eqb (g_hook_table F_respond) table_respond
@@ -113,6 +118,7 @@ Section Gen.
     env_ok E -> p_throw E = false ->
     exec prog pparam E fuel Skip server_session init_state = (o, st') -> o <> OutOfFuel ->
     ok_outcome o = true /\ one_response (o, alpha st') = true /\ unexpected_5xx (o, alpha st') = true
+    /\ served_closed (o, alpha st') = true
     /\ (p_showtb E = false -> no_leak (o, alpha st') = true).
   Proof.
     intros Hok Hth H Hne.
@@ -170,7 +176,7 @@ Section Gen.
     out_taint (sfin st') = true -> trap_outside (sfin st') = true.
   Proof.
     intros Hok Hth Hsh H Hne Ht.
-    destruct (g_common E fuel o st' Hok Hth H Hne) as (_ & _ & _ & Hc). specialize (Hc Hsh).
+    destruct (g_common E fuel o st' Hok Hth H Hne) as (_ & _ & _ & _ & Hc). specialize (Hc Hsh).
     unfold no_leak, getf, alpha in Hc. cbn [fst snd] in Hc. rewrite Ht in Hc. exact Hc.
   Qed.
 
@@ -228,6 +234,22 @@ Section Gen.
       pose proof (J_preserved prog pparam E Hp Hq fuel Skip server_session init_state o st' eq_refl X HJ0 H r) as HJ end.
     destruct (memZ r (closed (sid st'))); lia.
   Qed.
+  (** every request object that was ever loaded into the serving slot has been closed when a session ends
+      (whatever the outcome), and the slot does not hold an open request any more *)
+  Theorem gthm_served_closed E fuel o st' :
+    env_ok E -> p_throw E = false ->
+    exec prog pparam E fuel Skip server_session init_state = (o, st') -> o <> OutOfFuel ->
+    forall r, In r (served (sid st')) -> memZ r (closed (sid st')) = true.
+  Proof.
+    intros Hok Hth H Hne r Hr.
+    destruct (g_common E fuel o st' Hok Hth H Hne) as (_ & _ & _ & Hc & _).
+    unfold served_closed, alpha in Hc. cbn [snd] in Hc.
+    apply andb_prop in Hc. destruct Hc as [Hop Hlost].
+    apply negb_true_iff in Hop. apply negb_true_iff in Hlost.
+    pose proof (LS_preserved prog pparam E fuel Skip server_session init_state o st' LS_init H) as [_ HL].
+    destruct (HL r Hr) as [Hl|[Hcl|[_ Ho]]]; [congruence | exact Hcl | congruence].
+  Qed.
+
   (** ... and exactly once for every request whose close() got past its guard, never for another one *)
   Theorem gthm_end_request_exactly_once_if_closed E fuel o st' r :
     exec prog pparam E fuel Skip server_session init_state = (o, st') -> o <> OutOfFuel -> r <> 0 ->
@@ -256,6 +278,18 @@ Section Gen.
       pose proof (K_preserved prog pparam E Hp2 Hq2 fuel Skip server_session init_state o st' eq_refl Y HK0 H Hne r Hr) as HK
     end.
     destruct (memZ r (closed (sid st'))); [specialize (HK eq_refl); lia | lia].
+  Qed.
+  (** C09, the full clause: in every terminating server session on_end_request has run exactly once for every
+      request object that was served *)
+  Theorem gthm_end_request_exactly_once E fuel o st' r :
+    env_ok E -> p_throw E = false ->
+    exec prog pparam E fuel Skip server_session init_state = (o, st') -> o <> OutOfFuel ->
+    In r (served (sid st')) -> r <> 0 ->
+    countr r (journal st') = 1%nat.
+  Proof.
+    intros Hok Hth H Hne Hr Hr0.
+    rewrite (gthm_end_request_exactly_once_if_closed E fuel o st' r H Hne Hr0).
+    now rewrite (gthm_served_closed E fuel o st' Hok Hth H Hne r Hr).
   Qed.
 End Gen.
 
